@@ -83,6 +83,33 @@ CLAIMED = {
              "alternatives-within-envelopes and SVD clauses measured; direct's C backend not built.",
         technique="Lean 4 proof (real analysis of sqrt identities, Mathlib matrices, decide +kernel over generated table) + translator",
         design="§3 C17"),
+    "C07": dict(
+        text="Lean 4 theorems over a generic two-tier basis cache machine (memory slot + directory; calls with any key, with or "
+             "without a directory, cache_cleanup, basis_dir_cleanup, file damage/removal, other processes' saves): the "
+             "invariant 'what is in memory is right for its key' is preserved by every operation and every answer is the "
+             "basis a fresh process would generate (up to the module's sound cropping) or an exception — by induction over "
+             "all finite histories; the rule sets of dasch, daun, basex, linbasex, rbasex are proved lawful (and the "
+             "pre-repair daun rule proved unlawful). Clean-up exactness is decided by the kernel over file-name tables "
+             "regenerated from /repo. Tie: seeded histories on the real get_bs_cached functions vs the machine after every "
+             "operation; oracles: returned basis vs fresh, transform-level histories and single-parameter changes vs a "
+             "pristine re-imported module in a forked child, cleanup exactness on a populated directory.",
+        note="Trusted: Lean kernel + standard axioms; array contents are abstract descriptors and `sound` encodes crop facts "
+             "assumed of the numeric bases; second-level caches (transform matrices, rbasex _dst/_ibs, lazy inverse save) are "
+             "not in the machine (oracle only); gen_tables.py; ill-conditioned basex (sigma<1, reg=0) excluded from the lattice.",
+        technique="Lean 4 proof (invariant by induction over operation histories; decide +kernel over generated tables) + "
+                  "history correspondence model↔code",
+        design="§3 C07"),
+    "C08": dict(
+        text="Lean 4 theorems: .npy container round trip and rejection of every strict prefix of a well-formed file (all "
+             "sizes, all truncation points); fault sequences on the C07 cache machine (damage, removal, concurrent atomic "
+             "saves): a call returns the right basis or raises, and service recovers once no usable file is damaged. Tie: "
+             "NumPy's verdict vs the Lean decoder on every prefix of real basis files of every method; fault histories on the "
+             "real modules vs the machine. Oracles: truncated-file calls, poison scenarios, transform-level fault histories, "
+             "np.save exposure spy with a constructed two-writer hole state, real 4-process races.",
+        note="Trusted: Lean kernel + standard axioms; atomicity of rename within a directory; np.save's observed write pattern "
+             "(strace: header, whole-4096-byte bulk, tail); interleavings finer than write(2) calls out of scope.",
+        technique="Lean 4 proof (list/prefix reasoning, state-machine invariant) + byte-level differential check against numpy.load",
+        design="§3 C08"),
 }
 
 NOT_YET = "check not built yet in this session (planned, see DESIGN.md §3); not claimed until its theorems and correspondence run"
